@@ -122,6 +122,15 @@ def check(ctx):
         ctx.ob("SIB-16", w, "geometry popped from the row, the rest are the properties", pops[0] if pops else d, ok,
                "geometry goes under 'geometry', all other columns under 'properties'" if ok else
                "geometry/properties are not separated by popping 'geometry' from the row dict", nontrivial=False)
+    for d in dicts:
+        pv = [v for k, v in zip(d.keys, d.values) if isinstance(k, ast.Constant) and k.value == "properties"]
+        if pv and isinstance(pv[0], ast.Name):
+            ds = defs_reaching(w, pv[0].id, d)
+            ok = bool(ds) and all(dd.kind == "for" for dd in ds)
+            ctx.ob("SIB-16", w, f"properties = {pv[0].id} ({', '.join(dd.kind + (':' + norm(dd.value) if dd.value is not None else '') for dd in ds)[:120]})",
+                   d, ok, "the row's own dict (minus geometry) is written as the properties" if ok else
+                   f"{pv[0].id} is rebuilt/filtered before it is written: properties (e.g. null ones) are dropped, so a column that is "
+                   f"missing in every row disappears when the file is read back", clause="a frame with the same columns")
     lits = [n.value for n in ast.walk(w.node) if isinstance(n, ast.Constant) and isinstance(n.value, str)]
     w_has = any('"features"' in s for s in lits)
     r_has = any(isinstance(n, ast.Attribute) and n.attr == "features" for n in ast.walk(r.node)) or \
